@@ -303,7 +303,7 @@ static void sb_ts_foreign(struct h_stream *st, unsigned pid, unsigned b3, uint32
 
 #define MAXSTREAMS 256
 static struct h_stream ST[MAXSTREAMS]; static int NST;
-static struct h_stream BASE[4]; static int NBASE;
+static struct h_stream BASE[5]; static int NBASE;
 
 static void frameA(struct h_stream *st, int f) { sb_packet(st, f, LS({'t',7},{'v',16},{'w',23}), 184, 184); }
 static void frameB(struct h_stream *st, int f) { sb_packet(st, f, LS({'t',8},{'t',320}), 184, 184); }
@@ -473,14 +473,25 @@ static void build_streams(void)
         }
 
         /* base streams for the damage enumeration: 9 frames, the last one only flushes */
-        for (int k = 0; k < 4; k++) {
+        for (int k = 0; k < 5; k++) {
                 st = &BASE[NBASE++];
-                /* 0 pes-184, 1 ts-184, 2 ts-368 (quick: these three), 3 pes-368 with variable length data units */
-                int ts = (k == 1 || k == 2), big = k >= 2;
-                char nm[40]; snprintf(nm, sizeof nm, "%s-base-%s", ts ? "ts" : "pes", big ? "368" : "184");
-                sb_begin(st, nm, ts, k == 3 ? 0x99 : 0x10);
+                /* 0 pes-184, 1 ts-184, 2 ts-368, 3 ts-fields: every frame in two PES packets, first field / second field (quick: these
+                 * four), 4 pes-368 with variable length data units.  With ts-fields a loss that begins and ends on PES packet
+                 * boundaries (second field packet of frame N + first field packet of frame N+1) is enumerated through damage kind
+                 * "delete 376".  (Seed C07-12 glues the first field of N to the second field of N+1 there; the property only speaks
+                 * about the frames behind the first one after the damage, and the unchanged library itself joins a damaged frame
+                 * with its predecessor when the damage hits a line number, so no oracle demands the absence of such a frame.) */
+                int ts = (k >= 1 && k <= 3), big = (k == 2 || k == 4), fields = k == 3;
+                char nm[40]; snprintf(nm, sizeof nm, "%s-base-%s", ts ? "ts" : "pes", fields ? "fields" : big ? "368" : "184");
+                sb_begin(st, nm, ts, k == 4 ? 0x99 : 0x10);
+                /* the TS demultiplexer loses the PES packet it synchronises on (a listed finding): let that be a stuffing-only one,
+                 * or frame 0 would arrive as its second field alone */
+                if (fields) sb_packet(st, 0, NULL, 0, 184, 184);
                 for (int f = 0; f < 9; f++) {
-                        if (big) {
+                        if (fields) {
+                                if (f & 1) { sb_packet(st, f, LS({'t',7},{'v',16},{'w',23}), 184, 184); sb_packet(st, f, LS({'t',320},{'t',333}), 184, 184); }
+                                else       { sb_packet(st, f, LS({'t',8},{'t',10}), 184, 184); sb_packet(st, f, LS({'t',321},{'t',322},{'t',335}), 184, 184); }
+                        } else if (big) {
                                 if (f & 1) sb_packet(st, f, LS({'t',7},{'t',9},{'v',16},{'t',22},{'w',23},{'t',320},{'t',333}), 368, 368);
                                 else       sb_packet(st, f, LS({'t',8},{'t',10},{'t',11},{'t',321},{'t',322},{'t',334},{'t',335}), 368, 368);
                         } else {
@@ -891,6 +902,7 @@ static const struct h_kind kinds_all[] = {
         { K_DUP, 0, 0, "duplicate packet", 1 },
         { K_LEN, 184, 0, "PES_packet_length +184", 1 }, { K_LEN, 368, 0, "PES_packet_length +368", 1 }, { K_LEN, -1, 0, "PES_packet_length 0xFFFF", 1 },
         { K_DEL, 1, 0, "delete 1" }, { K_TRUNC, 0, 0, "truncate packet" },
+        { K_DEL, 376, 0, "delete 376" },          /* at a packet start: two TS packets lost */
         /* thorough only from here */
         { K_SET, 0x00, 0, "set 0x00" }, { K_SET, 0xFF, 0, "set 0xFF" }, { K_SET, 0x47, 0, "set 0x47" },
         { K_DEL, 2, 0, "delete 2" }, { K_DEL, 188, 0, "delete 188" },
@@ -898,8 +910,8 @@ static const struct h_kind kinds_all[] = {
         { K_INS, 1, 1, "insert 1 (0x47)" }, { K_INS, 3, 1, "insert 3 (0x47)" }, { K_INS, 184, 1, "insert 184 (0x47)" },
         { K_INS, 1, 2, "insert 1 (0x00)" }, { K_INS, 3, 2, "insert 3 (0x00)" }, { K_INS, 184, 2, "insert 184 (0x00)" },
 };
-#define NKINDS_QUICK 14
-#define NBASE_QUICK 3
+#define NKINDS_QUICK 15
+#define NBASE_QUICK 4
 #define NKINDS_ALL ((int)(sizeof kinds_all / sizeof *kinds_all))
 
 static int pk_of(const struct h_stream *st, size_t p)
@@ -1334,7 +1346,7 @@ int main(int argc, char **argv)
         mc_pool("partition", (uint64_t) npc, partition_case, pcs, mc_tier == MC_THOROUGH ? 400 : 150);
 
         /* (b) */
-        static int nblk[4]; uint64_t total = 0;
+        static int nblk[5]; uint64_t total = 0;
         for (int s = 0; s < NBASE; s++) {
                 size_t plimit = 0; for (int i = 0; i < BASE[s].npk; i++) if (BASE[s].pk[i].frame <= 5) plimit = BASE[s].pk[i].hi;
                 nblk[s] = (plimit + DMG_BLOCK - 1) / DMG_BLOCK; total += nblk[s];
